@@ -10,6 +10,7 @@ package workers
 //@ // out is the new counter value unless it exceeds the limit.
 //@ func (*PoolManager).WaitForCompletion
 //@   props C05 C06
+//@   spawns (*PoolManager).WaitForCompletion$1
 //@   requires m != nil
 //@   modifies closedchans
 //@   ensures result != nil && !closed(result)
@@ -110,7 +111,7 @@ package workers
 //@ // ---- setup (C06, C16): the scenario's setup function runs once, recovered; its outcome is read after the
 //@ // recovery and exactly one setup sample is exported with that outcome.
 //@ func (*ActiveScenario).Setup$1
-//@   props C06 C16 C07
+//@   props C06 C16 C07 C20
 //@   requires s != nil && s.scenario != nil && s.scenario.ScenarioFn != nil && wfT(s.t) && !s.t.tearingDown
 //@   dyncall ScenarioFn : userSetup
 //@   ghost at entry : Gpan = false
@@ -121,7 +122,7 @@ package workers
 //@   ensures [wf] wfT(s.t) && !s.t.tearingDown && Gmarks >= old(Gmarks)
 //@
 //@ func (*ActiveScenario).Setup
-//@   props C06 C16
+//@   props C06 C16 C20
 //@   requires s != nil && s.scenario != nil && s.scenario.ScenarioFn != nil && wfT(s.t) && !s.t.tearingDown && !s.t.failed && s.m != nil && s.m.Setup != nil
 //@   ghost at entry : Gphase = 0
 //@   ghost before call Setup$1 : assert [once] Gphase == 0 ; Gphase = 1
@@ -168,7 +169,7 @@ package workers
 //@   ensures [wf] wfState(result) && !result.t.failed && !result.t.tearingDown
 //@
 //@ func (*PoolManager).makeIterationStatePool
-//@   props C04 C03 C07 C01 C14
+//@   props C04 C03 C07 C01 C14 C06 C17
 //@   modifies nothing
 //@   requires numWorkers >= 0 && m.activeScenario != nil && m.activeScenario.scenario != nil
 //@   loop 0 invariant 0 <= i && i < numWorkers && len(statePool) == numWorkers && fresh(statePool)
@@ -189,17 +190,17 @@ package workers
 //@ pred wfManager(m *PoolManager) = m != nil && wfScenario(m.activeScenario) && tracks(m.activeScenario.progress)
 //@
 //@ func (*jobCounter).set
-//@   props C02 C03 C05
+//@   props C02 C03 C05 C09
 //@   modifies w.num
 //@   ensures result == old(w.num) && w.num == n
 //@
 //@ func (*jobCounter).none
-//@   props C02 C03 C05
+//@   props C02 C03 C05 C09
 //@   modifies nothing
 //@   ensures result == (w.num <= 0)
 //@
 //@ func (*jobCounter).take
-//@   props C02 C03
+//@   props C02 C03 C09
 //@   modifies w.num
 //@   ensures w.num == old(w.num) - 1 && result == (w.num >= 0)
 //@
@@ -293,19 +294,20 @@ package workers
 //@   ensures [idle] !result.stopWorkers
 //@
 //@ func (*PoolManager).NewTriggerPool
-//@   props C04 C14
+//@   props C04 C14 C06 C07
 //@   modifies nothing
 //@   requires numWorkers >= 0 && wfManager(m)
 //@   ensures wfTriggerPool(result) && result.numWorkers == numWorkers && result.manager == m
 //@
 //@ func (*PoolManager).NewContinuousPool
-//@   props C04 C14
+//@   props C04 C14 C06 C07
 //@   modifies nothing
 //@   requires numWorkers >= 0 && wfManager(m)
 //@   ensures wfContinuousPool(result) && result.numWorkers == numWorkers && result.manager == m
 //@
 //@ func (*TriggerPool).Start
 //@   props C04 C05
+//@   spawns (*TriggerPool).Start$1
 //@   requires wfTriggerPool(p)
 //@   ghost at entry : Gspawned = 0 ; Gwg = 0
 //@   ghost before call (*WaitGroup).Add #0 : Gwg = Gwg + arg1
@@ -317,6 +319,7 @@ package workers
 //@
 //@ func (*ContinuousPool).Start
 //@   props C04 C05
+//@   spawns (*ContinuousPool).Start$1
 //@   requires wfContinuousPool(p)
 //@   ghost at entry : Gspawned = 0 ; Gwg = 0
 //@   ghost before call (*WaitGroup).Add #1 : Gwg = Gwg + arg1
